@@ -14,6 +14,7 @@ import (
 // candidate c that is taken exactly on the edge c < phi. Returns the candidates and the initial values.
 func runningMin(fa *FA, phi *ssa.Phi) (cands []ssa.Value, inits []ssa.Value, bad string) {
 	pl := fa.Lin(phi)
+	seen := map[ssa.Value]bool{}
 	for i, e := range phi.Edges {
 		if e == ssa.Value(phi) {
 			continue
@@ -23,14 +24,24 @@ func runningMin(fa *FA, phi *ssa.Phi) (cands []ssa.Value, inits []ssa.Value, bad
 			inits = append(inits, e)
 			continue
 		}
-		// candidate: must be taken on phi - c >= 1
-		d := pl.Sub(fa.Lin(e))
-		bd := fa.BoundsAt(pred, d)
-		fa.boundsIncludingSelf(pred, phi.Block(), d, &bd)
-		if !(bd.HasLo && bd.Lo >= 0) {
-			bad = fmt.Sprintf("candidate %s replaces the minimum on the edge (min - candidate) in %s; a minimum needs min >= candidate there", fa.Lin(e), bd)
+		// back edge: expand inner phis into (candidate, conditions) leaves
+		leaves := fa.leavesOf(e, pred, 0)
+		sc := selfCond(pred, phi.Block())
+		for _, lf := range leaves {
+			if lf.V == ssa.Value(phi) {
+				continue
+			}
+			conds := append(append([]Cond{}, lf.Conds...), sc...)
+			d := pl.Sub(fa.Lin(lf.V))
+			bd := fa.boundsFrom(conds, d)
+			if !(bd.HasLo && bd.Lo >= 0) {
+				bad = fmt.Sprintf("candidate %s replaces the minimum on the edge (min - candidate) in %s; a minimum needs min >= candidate there", fa.Lin(lf.V), bd)
+			}
+			if !seen[lf.V] {
+				seen[lf.V] = true
+				cands = append(cands, lf.V)
+			}
 		}
-		cands = append(cands, e)
 	}
 	if len(cands) == 0 {
 		bad = "no candidate ever replaces the running minimum"
